@@ -41,6 +41,8 @@ VALUE_MENU = {
     "is": "__X__ is None", "isnot": "__X__ is not 1", "in": "__X__ in (1, 2)", "notin": "__X__ not in (1, 2)",
     "value-select": "__X__.Select(lambda zz: zz + 1)", "value-count": "__X__.Count()", "value-first": "__X__.First()",
     "value-where": "__X__.Where(lambda zz: zz > 0)", "none-const": "None", "bytes-const": "b'x'", "complex-const": "1j",
+    # integer constants no 64-bit C++ integer holds (just beyond the range, and far beyond it)
+    "int-2^63": "9223372036854775808", "int-2^64-1": "18446744073709551615", "int-below-min": "-9223372036854775809", "int-1e30": "1000000000000000000000000000000",
     "value-index": "__X__[0]", "value-slice": "__X__[0:1]", "set-display": "{__X__, 1}", "fstring": "f'{__X__}'", "ellipsis-const": "...",
 }
 SEQ_MENU = {
